@@ -6,7 +6,7 @@ From Coq Require Import String.
 From AS Require Import Base Effects.
 From AS.Gen Require Import Formats.
 From AS.Model Require Import Sgr Scrub.
-From AS.Proofs Require Import ScrubProofs FlagsProofs ScrubProofs2.
+From AS.Proofs Require Import ScrubProofs FlagsProofs ScrubProofs2 GenFnsRgb.
 Local Open Scope Z_scope.
 Local Open Scope list_scope.
 
@@ -87,6 +87,14 @@ Theorem C14_components : forall comp tail,
 Proof. intros comp tail. destruct comp; reflexivity. Qed.
 Print Assumptions C14_rgb_string.
 Print Assumptions C14_color256_string.
+
+(* the component arithmetic of the builders IS the code's: the two branches of _AnsiControlFn.rgb are
+   re-translated from the Python source on every run (Gen/Fns.v) *)
+Theorem C14_rgb_is_code : forall r g b v comp,
+  rgb3 r g b comp = (let '(r', g', b') := AS.Gen.Fns.gen_rgb_clamp r g b in color_texts comp [2; r'; g'; b'])
+  /\ rgb1 v comp = (let '(r', g', b') := AS.Gen.Fns.gen_rgb_split v in color_texts comp [2; r'; g'; b']).
+Proof. intros. split; [apply rgb3_uses_code | apply rgb1_uses_code]. Qed.
+Print Assumptions C14_rgb_is_code.
 
 (* ---------- rejected forms ---------- *)
 Theorem C14_err_negative : forall z, z < 0 -> scrub (FInt z) = Err ValueError.
